@@ -118,7 +118,7 @@ func runBatch(self string, p *Prop, seed int64, tier string, b batch, base strin
 		ef, _ := os.Create(errFile)
 		cmd.Stderr = ef
 		cmd.Stdout = ef
-		cmd.Env = append(os.Environ(), "GOTRACEBACK=all", "GORACE=halt_on_error=0 log_path="+base+".race")
+		cmd.Env = append(os.Environ(), "GOTRACEBACK=all", "GORACE=halt_on_error=0 exitcode=0 atexit_sleep_ms=0 log_path="+base+".race")
 		done := make(chan error, 1)
 		if err := cmd.Start(); err != nil {
 			fmt.Fprintln(os.Stderr, "cannot start worker:", err)
@@ -468,7 +468,7 @@ func DriverMain(self, propID, tier string, seed int64) int {
 		}
 	}
 	// race detector reports (GORACE log_path files written by the workers)
-	raceFiles, _ := filepath.Glob(filepath.Join(workDir, "*.race.*"))
+	raceFiles, _ := filepath.Glob(filepath.Join(workDir, "*", "*.race.*"))
 	raceReports := 0
 	for _, rf := range raceFiles {
 		b, _ := os.ReadFile(rf)
